@@ -65,7 +65,10 @@ def _work(idx):
     c0, s0 = STATS.checks, STATS.solver_s
     t0 = time.time()
     try:
-        V.verify(spec)
+        if spec.opts.get('bounded'):
+            V.unsupported[spec.name] = 'bounded by design: the function is outside the symbolic verifier (declared in the contract)'
+        else:
+            V.verify(spec)
     except Exception as e:  # engine crash on this contract: report, never a verdict
         V.unsupported[spec.name] = f'engine error: {type(e).__name__}: {e}\n{traceback.format_exc()[-1500:]}'
         V.results = {}
@@ -75,6 +78,7 @@ def _work(idx):
         'obligations': [dict(o.as_dict(), cex=o.cex) for o in V.results.values()],
         'cover': V.covers.get(spec.name), 'unsupported': V.unsupported.get(spec.name),
         'native_only': sorted(V.native_only.get(spec.name, [])),
+        'bounded_by_design': bool(spec.opts.get('bounded')),
         'solver_checks': STATS.checks - c0, 'solver_s': round(STATS.solver_s - s0, 3),
         'wall_s': round(time.time() - t0, 3),
     }
@@ -284,7 +288,7 @@ def report(prop, results, ledger, tier, seed, t_start, only_mode=False):
     for name, why in unsupported.items():
         r = next(x for x in results if x['name'] == name)
         try:
-            cc = native(['crosscheck', r['module'], '300' if tier == 'quick' else '3000', str(seed), name])
+            cc = native(['crosscheck', r['module'], '300' if tier == 'quick' else '3000', str(seed), name], timeout=3600)
             st = cc.get(name, {})
             bounded.append({'what': name, 'why_not_proved': why[:300], 'evaluations': st.get('pre_ok', 0),
                             'failures': len(st.get('failures', []))})
@@ -304,8 +308,11 @@ def report(prop, results, ledger, tier, seed, t_start, only_mode=False):
                     violations += 1
         except Exception as e:
             bounded.append({'what': name, 'why_not_proved': why[:300], 'error': str(e)[:300]})
-        lines.append(f'UNDECIDED contract={name} reason=unsupported: {why.splitlines()[0][:200]}')
-        undecided.append({'contract': name, 'reason': why[:300]})
+        if r.get('bounded_by_design'):
+            lines.append(f'BOUNDED contract={name}: evaluated natively only ({bounded[-1].get("evaluations", 0)} inputs)')
+        else:
+            lines.append(f'UNDECIDED contract={name} reason=unsupported: {why.splitlines()[0][:200]}')
+            undecided.append({'contract': name, 'reason': why[:300]})
     # 3. native cross-check of every contract of this property on random concrete inputs
     xc = {'contracts': 0, 'inputs': 0, 'failures': 0, 'disagreements': []}
     n_native = {'quick': 40, 'thorough': 1500}.get(tier, 40)
